@@ -63,7 +63,7 @@ type Plan struct {
 }
 
 var kinds = []string{"mkdir", "cp", "mv", "rm", "cd", "cdback", "env", "envexpand", "exists", "notexists", "execfg", "execenv", "execpwd", "execbg", "execbgshort", "wait",
-	"toolguard", "notoolguard", "stop", "skip", "fail", "negfail", "probe", "probe", "defer", "defer", "writecanary", "deferfail", "execbgsave", "worktool", "execbgchild", "tskip", "tfailnow", "linkout"}
+	"toolguard", "notoolguard", "stop", "skip", "fail", "negfail", "probe", "probe", "defer", "defer", "writecanary", "deferfail", "execbgsave", "worktool", "execbgchild", "tskip", "tfailnow", "linkout", "nopath", "execbgdup"}
 
 func genPlan(t *rapid.T, tier string) any {
 	p := &Plan{SetupFail: -1}
@@ -153,6 +153,13 @@ func scriptText(i int, s Script, tool string) string {
 			foreverBg = true
 		case "deferfail":
 			fmt.Fprintf(&b, "deferfail %d\n", l.Arg)
+		case "nopath":
+			// the script's PATH does not contain the program; that the host's PATH does is none of its business
+			fmt.Fprintf(&b, "env SAVED=$PATH\nenv PATH=$WORK/nobin\n! exec stub run=%dus\nenv PATH=$SAVED\n", 1000+us)
+		case "execbgdup":
+			// the same background name twice: the second line is an error of the script, and must not start anything
+			fmt.Fprintf(&b, "exec stub bg=true run=forever int=%dus quit=%dus &dup&\nexec stub bg=true run=forever int=%dus quit=%dus &dup&\n", 3000+us, 3000+us, 4000+us, 4000+us)
+			foreverBg = true
 		case "linkout":
 			// a symbolic link, inside the work directory, to a directory that belongs to somebody else
 			fmt.Fprintf(&b, "symlink out%d -> $OUTSIDE\n", l.Arg)
@@ -550,6 +557,22 @@ func run(t *testing.T, plan any, keep bool) *simcheck.Outcome {
 					out.Violate("host-variable-visible", "%s: child process %v sees host variable %s", label, pr.Args, kv)
 				}
 			}
+			// (2b) programs are found through the script's PATH, never through the host's
+			if len(pr.Args) > 0 {
+				scriptPath, ok := "", false
+				for _, kv := range pr.Env {
+					if strings.HasPrefix(kv, "PATH=") {
+						scriptPath, ok = kv[5:], true
+					}
+				}
+				inPath := false
+				for _, d := range filepath.SplitList(scriptPath) {
+					inPath = inPath || d == filepath.Dir(pr.Path)
+				}
+				if ok && !inPath && filepath.Base(pr.Path) == "stub" {
+					out.Violate("host-path-lookup", "%s: process %s was started although its directory is not on the script's PATH (%s): it was found through the host's", label, pr.Path, scriptPath)
+				}
+			}
 			// (3) no process survives its script
 			name := ""
 			for _, kv := range pr.Env {
@@ -735,7 +758,7 @@ var harness = &simcheck.Harness{
 	Property: "C04",
 	Level:    "exploration",
 	Rule: "rapid draws a batch of 2-4 scripts of 2-9 lines each over the same relative names (mkdir cp mv rm cd env exists, foreground / background stub processes that create files and print their environment and cwd, background programs that exit but leave a descendant holding their output pipes for 150-450 ms, wait, " +
-		"[exec:tool] guards with per-script PATHs (a shared tool directory that only some scripts have on PATH; a $WORK/bin that every script puts on PATH and only some install the program into), stop, skip, failing and negated lines, probe and defer custom commands, custom commands that skip or fail the script directly through the T of Env.T, symbolic links from the work directory to a restricted directory of somebody else's), retention options (TestWork / WorkdirRoot), RequireUniqueNames with a duplicate entry, " +
+		"[exec:tool] guards with per-script PATHs (a shared tool directory that only some scripts have on PATH; a $WORK/bin that every script puts on PATH and only some install the program into), stop, skip, failing and negated lines, probe and defer custom commands, custom commands that skip or fail the script directly through the T of Env.T, symbolic links from the work directory to a restricted directory of somebody else's, a PATH without the program, a background name used twice), retention options (TestWork / WorkdirRoot), RequireUniqueNames with a duplicate entry, " +
 		"a failing Setup, a script file that has vanished, optionally an earlier RunT call in the same process that asked for retention, host GORACE, verbosity, a -parallel limit and a schedule; the batch runs once, then every script runs alone; non-trivial = more context switches than scripts+2; distinct by decision-trace hash",
 	Gen:     genPlan,
 	NewPlan: func() any { return &Plan{} },
